@@ -51,6 +51,8 @@ COLLISION_NAMES = ["Data", "Encrypt", "Protocol", "Net", "Map", "Pub", "Client",
                    "Sequence", "Mapping", "List", "Dict", "Any", "Callable", "Tuple", "Set", "Final", "Literal", "Enum",
                    "Path", "Bytes", "Str", "Int", "Bool", "Object", "Self", "Writer", "Reader",
                    # soft keywords and builtins as module names (match.py, case.py, print.py ...)
+                   # names of the per-switch aliases generated inside classes (<Field>Data)
+                   "KindData", "ModeData", "CodeData", "LevelData", "RankData", "FlagData", "JobData", "UnitData", "ZoneData",
                    "Match", "Case", "Type", "Print", "Len", "Id", "Input", "Open", "Property", "Super", "Async0"]
 FILESYSTEM_COLLISIONS = {"": {"map", "net", "pub"}, "net": {"client", "server"}, "pub": {"server"}}
 FAMILIES = ["Connection", "Account", "Character", "Login", "Welcome", "Walk", "Face", "Chair", "Emote", "Attack",
@@ -744,10 +746,54 @@ def add_rows(tree, rng):
     return out
 
 
+def add_twin_cases(tree, rng):
+    """A switch whose cases hold the same instructions and differ only in what their <chunked> wrapper encloses
+    (nothing, everything, the tail): "the same layout" on the wire, different modes while it is written and read."""
+    length = rng.choice([2, 4, 7])
+    num = rng.choice(["char", "short", "three"])
+    text = f'<field name="label" type="{rng.choice(["string", "encoded_string"])}" length="{length}"/>'
+    tail = f'<field name="amount" type="{num}"/>'
+    ind = "                "
+    cases = [f'{ind}{text}\n{ind}{tail}\n',
+             f'{ind}<chunked>\n{ind}    {text}\n{ind}    {tail}\n{ind}</chunked>\n',
+             f'{ind}{text}\n{ind}<chunked>\n{ind}    {tail}\n{ind}</chunked>\n',
+             f'{ind}<chunked>\n{ind}    {text}\n{ind}</chunked>\n{ind}{tail}\n']
+    rng.shuffle(cases)
+    body = "".join(f'            <case value="{i + 1}">\n{c}            </case>\n' for i, c in enumerate(cases[:rng.choice([2, 3, 4])]))
+    xml = (f'    <struct name="TwinCases">\n        <field name="which" type="char"/>\n        <switch field="which">\n{body}'
+           f'        </switch>\n        <field name="after" type="char"/>\n    </struct>\n')
+    rel = rng.choice(sorted(tree))
+    out = dict(tree)
+    out[rel] = tree[rel].replace("</protocol>", xml + "</protocol>")
+    return out
+
+
+def add_alias_named_type(tree, rng):
+    """A type called like the alias a generated class keeps for a switch's case data (<Field>Data), declared in the
+    same file as the class that switches on <field>: legal, and the two must not be confused anywhere."""
+    import re
+    rels = [rel for rel in sorted(tree) if '<switch field="' in tree[rel]]
+    if not rels:
+        return tree
+    rel = rng.choice(rels)
+    fields = sorted(set(re.findall(r'<switch field="([a-z0-9_]+)"', tree[rel])))
+    name = "".join(p.capitalize() for p in rng.choice(fields).split("_")) + "Data"
+    if any(f'name="{name}"' in x for x in tree.values()):
+        return tree
+    xml = f'    <struct name="{name}">\n        <field name="x" type="char"/>\n    </struct>\n'
+    out = dict(tree)
+    out[rel] = tree[rel].replace("</protocol>", xml + "</protocol>")
+    return out
+
+
 def gen_tree(rng, profile="full", upward_refs=False):
     g = SpecGen(rng, profile)
     g.k.upward_refs = upward_refs
     tree = g.gen_tree()
     if rng.random() < 0.15 and not any("RowOfCells" in x for x in tree.values()):
         tree = add_rows(tree, rng)
+    if rng.random() < 0.12 and not any("TwinCases" in x for x in tree.values()):
+        tree = add_twin_cases(tree, rng)
+    if rng.random() < 0.15:
+        tree = add_alias_named_type(tree, rng)
     return tree
